@@ -184,6 +184,18 @@ fn valid_inputs(thorough: bool) -> Vec<Val> {
     for v in basis.iter().filter(|v| !v.ty().is_leaf() && v.node_count() <= 3) {
         val::wrap_all(v, &mut s);
     }
+    // a bool field (carried in the compact field header) followed by bools that are not
+    for follow in [
+        Val::List(T::Bool, vec![Val::Bool(false), Val::Bool(true), Val::Bool(false)]),
+        Val::Set(T::Bool, vec![Val::Bool(false)]),
+        Val::Map(T::I8, T::Bool, vec![(Val::I8(1), Val::Bool(false))]),
+        Val::Map(T::Bool, T::I8, vec![(Val::Bool(false), Val::I8(1))]),
+    ] {
+        let inner = Val::Struct(vec![(1, Val::Bool(true)), (2, follow.clone())]);
+        s.push(inner.clone());
+        s.push(Val::Struct(vec![(1, inner.clone()), (2, Val::I32(5))]));
+        s.push(Val::List(T::Struct, vec![inner]));
+    }
     // scalars at boundaries, top level and as a field
     for x in val::scalar_alphabet(false) {
         let keep = match &x {
@@ -222,6 +234,23 @@ pub fn run(a: &Args) {
                 }
                 for api in apis {
                     check_input(&mut col, &inp, *api, bound, all_below, cap);
+                }
+                // the value as an unknown field: header, skip, field end, next header - through the
+                // async reader under the three extreme schedules, against the in-memory reader
+                if crate::c07::run_in_struct(prot, v).is_ok() {
+                    for (mode, mname) in [(Mode::All, "all"), (Mode::OneByte, "one-byte"), (Mode::PendingEvery, "pending-every")] {
+                        col.evaluations += 1;
+                        if let Err((sig, detail)) = crate::c07::run_in_struct_async(prot, mode, v) {
+                            col.outcome("skip-differs");
+                            col.fail(
+                                format!("C12|async-{}|skip-as-unknown-field|{}", prot.name(), sig),
+                                json!({"prot": prot.name(), "t": v.ty(), "bytes": inp.bytes, "msg_len": inp.msg_len, "kind": "valid", "api": "bytes", "schedule": mname, "val": v}),
+                                detail,
+                            );
+                        } else {
+                            col.outcome("skip-agrees");
+                        }
+                    }
                 }
             }
             // faults: every truncation, every length/count overwrite
@@ -285,6 +314,21 @@ pub fn replay(case: &serde_json::Value) -> Vec<(String, String)> {
         show: String::new(),
     };
     let api = BinApi::from_name(case["api"].as_str().unwrap());
+    if !case["val"].is_null() {
+        // a skip-as-unknown-field failure: the recorded value under the recorded extreme schedule
+        let v: Val = serde_json::from_value(case["val"].clone()).unwrap();
+        let mode = match case["schedule"].as_str().unwrap_or("all") {
+            "all" => Mode::All,
+            "one-byte" => Mode::OneByte,
+            _ => Mode::PendingEvery,
+        };
+        if crate::c07::run_in_struct(inp.prot, &v).is_ok() {
+            if let Err((sig, detail)) = crate::c07::run_in_struct_async(inp.prot, mode, &v) {
+                return vec![(format!("C12|async-{}|skip-as-unknown-field|{}", inp.prot.name(), sig), detail)];
+            }
+        }
+        return vec![];
+    }
     let sync = sync_res(inp.prot, &inp.bytes, inp.t, api);
     match &case["schedule"] {
         serde_json::Value::String(s) => {
